@@ -647,7 +647,89 @@ def rule_T5(ck):
                          construct=f"hoist {text} value", expected=repr(exp_ext), found=repr(ext))
 
 
+def rule_T5n(ck):
+    """operands WITHOUT a register are not touched by the hoisting pass: 'a+b', 'a+b*c', '-a', '@a-b' encode exactly like one
+    opaque expression of the same value (relative / relative-deferred mode)"""
+    repo = ck.repo
+    A, B, C = (sym.var(n, "int") for n in "ABC")
+    where = "insns::RegisterModeOperandStub.encode"
+    cases = [("a+b", lambda sh, a, b, c: sh.bin("add", a, b), sym.add(A, B), False), ("a+b*c", lambda sh, a, b, c: sh.bin("add", a, sh.bin("mul", b, c)), sym.add(A, sym.mul(B, C)), False),
+             ("-a", lambda sh, a, b, c: sh.un("neg", a), sym.neg(A), False), ("a-b-c", lambda sh, a, b, c: sh.bin("sub", sh.bin("sub", a, b), c), sym.sub(sym.sub(A, B), C), False),
+             ("@a-b", lambda sh, a, b, c: sh.un("deferred", sh.bin("sub", a, b)), sym.sub(A, B), True), ("#a+b", lambda sh, a, b, c: sh.un("immediate", sh.bin("add", a, b)), sym.add(A, B), None)]
+    for text, build, value, deferred in cases:
+        I = eager_interp(repo)
+
+        def thunk(build=build, value=value, deferred=deferred):
+            sh = Shapes(I)
+            a, b, c = sh.xexpr(A, "a"), sh.xexpr(B, "b"), sh.xexpr(C, "c")
+            stub = I.instantiate(I.module_get("insns", "RegisterModeOperandStub"), ["d", [5, 4, 3, 2, 1, 0]], {})
+            got = I.call_method(stub, "encode", [build(sh, a, b, c), STATE])
+            v = sh.xexpr(value, "v")
+            plain = sh.un("deferred", v) if deferred else (sh.un("immediate", v) if deferred is None else v)
+            ref = I.call_method(stub, "encode", [plain, STATE])
+            return got, ref
+        ps = I.explore(thunk)
+        ck.instance(("no-hoist", text), {"operand": text, "result": repr(ps[0].value[0]) if ps and ps[0].kind == "return" else repr(ps)}, fn=where)
+        if len(ps) != 1 or ps[0].kind != "return" or ps[0].reported():
+            ck.violation(where, f"the operand '{text}' (no register in it) does not encode on one clean path: {[(p.kind, repr(p.value), [e[2] for e in p.reported()]) for p in ps]}", construct=f"no-hoist {text}")
+            continue
+        got, ref = ps[0].value
+        if got != ref:
+            ck.violation(where, f"the operand '{text}' (no register in it) encodes as {got!r}; one opaque expression of the same value encodes as {ref!r}", construct=f"no-hoist {text}", expected=repr(ref), found=repr(got))
+
+
+def rule_T2s(ck):
+    """the two small stubs: a register field accepts exactly a register (named or %N) and yields its number; an accumulator
+    field accepts exactly ac0..ac(2^w - 1) and yields the number; everything else is an error, never some value"""
+    repo = ck.repo
+    I = eager_interp(repo)
+    XV = sym.var("X", "int")
+    insn_tok = lambda sh: sh.mk(I.module_get("types", "Instruction"), None, None, sh.symbol("xor"), [])
+    # RegisterOperandStub
+    cases = [("r0", 0), ("R5", 5), ("sp", 6), ("PC", 7), ("%4", 4), ("X", None), ("(r3)", None), ("#X", None), ("ac1", None)]
+    for text, want in cases:
+        def thunk(text=text):
+            sh = Shapes(I)
+            op = {"X": lambda: sh.xexpr(XV, "X"), "(r3)": lambda: sh.paren(sh.symbol("r3")), "#X": lambda: sh.un("immediate", sh.xexpr(XV, "X")),
+                  "%4": lambda: sh.un("register", sh.number("4", 4))}.get(text, lambda: sh.symbol(text))()
+            stub = I.instantiate(I.module_get("insns", "RegisterOperandStub"), ["s", [2, 1, 0]], {})
+            st = {"insn": insn_tok(sh), "emit_address": DOT, "rel_address": REL}
+            return I.call_method(stub, "encode", [op, st])
+        ps = I.explore(thunk)
+        ck.instance(("register-stub", text), {"operand": text, "result": [repr(p.value) if p.kind == "return" else p.value.name for p in ps]}, fn="insns::RegisterOperandStub.encode")
+        if want is None:
+            if not ps or any(p.kind == "return" or not p.reported() for p in ps):
+                ck.violation("insns::RegisterOperandStub.encode", f"a register field given the operand '{text}' does not end in an error diagnostic: {[(p.kind, repr(p.value)) for p in ps]}", construct=f"register stub rejects {text}")
+        else:
+            got = ps[0].value if len(ps) == 1 and ps[0].kind == "return" else None
+            val = got[0] if isinstance(got, tuple) and len(got) == 2 else None
+            if is_sym(val) and val[:2] == ("op", "get_as_int"):
+                val = val[2]
+            if val != want or (isinstance(got, tuple) and got[1] != b"") or ps[0].reported():
+                ck.violation("insns::RegisterOperandStub.encode", f"a register field given '{text}' encodes {got!r} (errors {[e[2] for p in ps for e in p.reported()]}), expected register number {want} and no extension word",
+                             construct=f"register stub {text}", expected=repr((want, b"")), found=repr(got))
+    # FP11AccumulatorOperandStub with a 2-bit field
+    for text, want in [("ac0", 0), ("AC1", 1), ("ac3", 3), ("ac4", None), ("ac5", None), ("ac6", None), ("r1", None), ("X", None), ("ac", None), ("ac10", None)]:
+        def thunk(text=text):
+            sh = Shapes(I)
+            op = sh.xexpr(XV, "X") if text == "X" else sh.symbol(text)
+            stub = I.instantiate(I.module_get("insns", "FP11AccumulatorOperandStub"), ["D", [1, 0]], {})
+            st = {"insn": insn_tok(sh), "emit_address": DOT, "rel_address": REL}
+            return I.call_method(stub, "encode", [op, st])
+        ps = I.explore(thunk)
+        ck.instance(("accumulator-stub", text), {"operand": text, "result": [repr(p.value) if p.kind == "return" else p.value.name for p in ps]}, fn="insns::FP11AccumulatorOperandStub.encode")
+        if want is None:
+            if not ps or any(p.kind == "return" or not p.reported() for p in ps):
+                ck.violation("insns::FP11AccumulatorOperandStub.encode", f"a 2-bit accumulator field given '{text}' does not end in an error diagnostic: {[(p.kind, repr(p.value)) for p in ps]}",
+                             construct=f"accumulator stub rejects {text}")
+        elif len(ps) != 1 or ps[0].kind != "return" or ps[0].value != (want, b"") or ps[0].reported():
+            ck.violation("insns::FP11AccumulatorOperandStub.encode", f"a 2-bit accumulator field given '{text}' encodes {[(p.kind, repr(p.value)) for p in ps]}, expected ({want}, no extension word)",
+                         construct=f"accumulator stub {text}", expected=repr((want, b"")))
+
+
 def run(ck):
+    ck.run_rule("C01.T2s", "register and accumulator fields: accept set and value", 19, rule_T2s)
+    ck.run_rule("C01.T5n", "operands without a register pass the hoisting step unchanged", 6, rule_T5n)
     ck.run_rule("C01.T5", "index operands written 'a+b(r)': the register is hoisted out and the whole expression is the index", 16, rule_T5)
     ck.run_rule("C01.T1", "opcode table == ISA reference (fold of insns.init over instruction_opcodes)", 252, rule_T1)
     ck.run_rule("C01.S", "synonyms encode like their targets", 30, rule_S)
